@@ -280,6 +280,15 @@ def c19_tables():
             and 'except (ValueError, SyntaxError):' in rest[1] and len(rest) == 2):
         raise ValueError('guess_type has an unexpected shape')
     out.append(f'Definition guess_type_passes_non_str : bool := {"true" if passes else "false"}.')
+    # the prefix of a backend's environment variables is its OWN class name unless the class statement passes short_name=
+    base = pyast.module('replicat/backends/base.py')
+    isc = pyast.find_func(pyast.find_class(base, 'Backend'), '__init_subclass__')
+    own = [ast.unparse(st) for st in isc.body if isinstance(st, ast.If) and ast.unparse(st.test) == 'short_name is None']
+    ok = (len(own) == 1 and own[0] == 'if short_name is None:\n    short_name = cls.__name__'
+          and 'cls.short_name = short_name' in [ast.unparse(st) for st in isc.body]
+          and [a.arg for a in isc.args.args][:1] == ['short_name'] and ast.unparse(isc.args.defaults[0]) == 'None'
+          and len(isc.args.defaults) == len(isc.args.args))
+    out.append(f'Definition env_prefix_is_own_class_name : bool := {"true" if ok else "false"}.')
     specs = backend_specs()
     out.append('Definition backends : list (string * string * list (string * option value)) := [')
     out.append(';\n'.join(f'  ({coq_str(m)}, {coq_str(s)}, [{"; ".join(f"({coq_str(p)}, {d})" for p, d in ps)}])' for m, s, ps in specs))
